@@ -53,7 +53,8 @@ def loop_invariants_of(mi, I):
     node = mi.assigns.get("LOOP_INVARIANTS")
     if node is None:
         return
-    d = ast.literal_eval(node)
+    env = {k: v.value for k, v in mi.assigns.items() if isinstance(v, ast.Constant) and isinstance(v.value, (str, int))}
+    d = eval(compile(ast.Expression(node), mi.path, "eval"), {"__builtins__": {}}, env)
     for (q, n), v in d.items():
         if isinstance(v, dict):
             I.loop_invariants[(q, n)] = LoopInv(v["inv"], v.get("havoc", ()), v.get("decreases"))
@@ -108,6 +109,54 @@ def extract_inputs(I, m):
     return out
 
 
+def z3cli_check(smt2, timeout_s):
+    """z3 5.1 command line with a HARD time limit (the API's soft timeout is ignored on some quantified goals)."""
+    with tempfile.NamedTemporaryFile("w", suffix=".smt2", delete=False, dir=os.environ.get("PYVC_TMP", None)) as f:
+        f.write(smt2 + "\n")
+        p = f.name
+    try:
+        r = subprocess.run(["z3-new", "-T:%d" % int(timeout_s), p], capture_output=True, text=True, timeout=timeout_s + 10)
+        out = r.stdout.strip().splitlines()
+        return out[0] if out and out[0] in ("sat", "unsat", "unknown") else "unknown"
+    except Exception:
+        return "unknown"
+    finally:
+        os.unlink(p)
+
+
+def has_quantifier(terms):
+    seen = set()
+    todo = list(terms)
+    while todo:
+        e = todo.pop()
+        i = e.get_id()
+        if i in seen:
+            continue
+        seen.add(i)
+        if z3.is_quantifier(e):
+            return True
+        if z3.is_app(e):
+            todo.extend(e.children())
+    return False
+
+
+def _consts(terms):
+    out, seen, todo = {}, set(), list(terms)
+    while todo:
+        e = todo.pop()
+        i = e.get_id()
+        if i in seen:
+            continue
+        seen.add(i)
+        if z3.is_quantifier(e):
+            todo.append(e.body())
+        elif z3.is_app(e):
+            if e.num_args() == 0 and e.decl().kind() == z3.Z3_OP_UNINTERPRETED:
+                out[e.decl().name()] = e
+            todo.extend(e.children())
+    return list(out.values())
+
+
 def cvc5_check(smt2, timeout_s):
     with tempfile.NamedTemporaryFile("w", suffix=".smt2", delete=False, dir=os.environ.get("PYVC_TMP", None)) as f:
         f.write("(set-logic ALL)\n" + smt2 + "\n")
@@ -142,7 +191,53 @@ def discharge(I, ob, z3_timeout_s, cvc5_timeout_s, both=False):
         s.add(neg)
     from . import smt
 
-    if smt.fast_unsat(list(I.axioms) + list(ob.pc) + ([neg] if neg is not None else []), int(z3_timeout_s * 1000)):
+    allterms = list(I.axioms) + list(ob.pc) + ([neg] if neg is not None else [])
+    if has_quantifier(allterms):
+        # quantified goal: external solvers with hard limits, z3 first then cvc5
+        smt2 = s.to_smt2()
+        r1 = z3cli_check(smt2, z3_timeout_s)
+        ob.backend = "z3-cli"
+        if r1 == "unknown":
+            r1 = cvc5_check(smt2, cvc5_timeout_s)
+            ob.backend = "cvc5"
+        if r1 == "unsat":
+            ob.status = "discharged"
+        elif r1 == "sat":
+            ob.status = "refuted"
+            ob.model = None
+            ob.reason = "%s reports sat on a quantified goal (no model extracted)" % ob.backend
+        else:
+            # counter-model search on a finite universe: a model of (premises and not goal) with only N objects is
+            # also a model without that restriction, so `sat` here is a genuine refutation of the obligation
+            found = None
+            from .heap import obj_sort
+
+            for n in (2, 3, 4):
+                s2 = z3.Solver()
+                for a in allterms:
+                    s2.add(a)
+                us = [z3.Const("u!%d" % k, obj_sort()) for k in range(n)]
+                x = z3.Const("x!u", obj_sort())
+                s2.add(z3.ForAll([x], z3.Or(*[x == u for u in us])))
+                # small child lists in the initial heap keep the integer quantifiers finite for the model finder
+                for c in _consts(allterms):
+                    if c.decl().name().startswith("H0_") and c.decl().name().endswith("_len"):
+                        s2.add(z3.ForAll([x], z3.And(z3.Select(c, x) >= 0, z3.Select(c, x) <= 3)))
+                r2 = z3cli_check(s2.to_smt2(), min(20, z3_timeout_s * 2))
+                if r2 == "sat":
+                    found = n
+                    break
+            if found:
+                ob.status = "refuted"
+                ob.model = None
+                ob.backend = "z3-cli-finite-universe"
+                ob.reason = "counter-model with %d heap objects exists (premises hold, goal fails)" % found
+            else:
+                ob.status = "undecided"
+                ob.reason = "z3 and cvc5 unknown/timeout on a quantified goal; no counter-model with <=4 objects found"
+        ob.time = time.time() - t0
+        return
+    if smt.fast_unsat(allterms, int(z3_timeout_s * 1000)):
         ob.status, ob.backend = "discharged", "z3-nlsat"
         ob.time = time.time() - t0
         return
@@ -225,6 +320,12 @@ def run_lemma(path, lemma_name, tier="quick"):
         for a in node.args.args:
             vars[a.arg] = sym_param(I, st, a.arg, a.annotation)
         f = FuncVal(node, mi)
+        # module-level declarations of the harness (declare_field(...)) are executed first
+        st.frames.append(Frame({}, None, mi, None, is_harness=True))
+        for top in mi.tree.body:
+            if isinstance(top, ast.Expr) and isinstance(top.value, ast.Call) and isinstance(top.value.func, ast.Name) and top.value.func.id in ("declare_field",):
+                list(I.ev(top.value, st))
+        st.frames.pop()
         fr = Frame(vars, f, mi, None, is_harness=True)
         st.frames.append(fr)
         ends = []
@@ -241,6 +342,20 @@ def run_lemma(path, lemma_name, tier="quick"):
         # vacuity: at least one complete path must be satisfiable
         cover_ok = False
         for pc in ends:
+            if has_quantifier(pc):
+                # quantified path condition: only "provably contradictory" is detectable (canary: False is not provable)
+                sv = z3.Solver()
+                for a in I.axioms:
+                    sv.add(a)
+                for c in pc:
+                    sv.add(c)
+                rr = z3cli_check(sv.to_smt2(), 5)
+                if rr == "sat":
+                    cover_ok = True
+                    break
+                if rr == "unknown":
+                    cover_ok = cover_ok or None
+                continue
             r, _ = I.check(pc, 10000)
             if r == "sat":
                 cover_ok = True
@@ -290,8 +405,38 @@ def _excargs(e):
         return ""
 
 
+def _child(q, args):
+    try:
+        q.put(run_lemma(*args))
+    except BaseException as e:  # noqa
+        q.put({"lemma": args[1], "file": os.path.basename(args[0]), "status": "error", "obligations": [], "error": "worker crashed: %r" % (e,), "wall_s": 0})
+
+
 def _worker(args):
-    return run_lemma(*args)
+    """Run one lemma in its own process with a HARD wall-clock limit (z3 can ignore soft timeouts on quantified goals)."""
+    path, name, tier = args
+    budget = int(os.environ.get("PYVC_LEMMA_BUDGET", "240" if tier == "quick" else "1800")) + 45
+    ctx = mp.get_context("fork")
+    q = ctx.Queue()
+    p = ctx.Process(target=_child, args=(q, args))
+    t0 = time.time()
+    p.start()
+    res = None
+    try:
+        res = q.get(timeout=budget)
+    except Exception:
+        res = None
+    if p.is_alive():
+        p.terminate()
+        p.join(5)
+        if p.is_alive():
+            p.kill()
+    else:
+        p.join(1)
+    if res is None:
+        res = {"lemma": name, "file": os.path.basename(path), "status": "unsupported", "obligations": [],
+               "error": "hard timeout after %ds (solver did not return)" % budget, "wall_s": round(time.time() - t0, 1)}
+    return res
 
 
 def run_file(path, tier="quick", only=None, jobs=None):
@@ -301,10 +446,10 @@ def run_file(path, tier="quick", only=None, jobs=None):
         names = [n for n in names if n in only]
     jobs = jobs or min(16, max(1, len(names)))
     tasks = [(path, n, tier) for n in names]
-    if jobs == 1 or len(tasks) <= 1:
-        return [run_lemma(*t) for t in tasks]
-    with mp.Pool(jobs) as pool:
-        return pool.map(_worker, tasks, chunksize=1)
+    from concurrent.futures import ThreadPoolExecutor
+
+    with ThreadPoolExecutor(jobs) as ex:
+        return list(ex.map(_worker, tasks))
 
 
 def main(argv):
